@@ -111,6 +111,9 @@ func newQNode(o qnodeOpts) (*qnode, error) {
 	mc.PushPullInterval = 0
 	mc.Logger = log.New(io.Discard, "", 0)
 	mc.Keyring = o.keyring
+	if o.keyring != nil {
+		mc.GossipVerifyOutgoing = false // captured packets stay readable
+	}
 	conf.Logger = log.New(io.Discard, "", 0)
 	if o.logw != nil {
 		conf.Logger = log.New(o.logw, "", 0)
